@@ -87,11 +87,6 @@ Section Lock.
   Lemma pc_perr f x e p : parse_content false (R f x) = PErr e p -> R f x = PErr e p.
   Proof. destruct (R f x); cbn; intros H; try discriminate; exact H. Qed.
 
-  (** a nested call (not a collector) never fails with a collector's own error *)
-  Lemma nested_not_own f x e p : own e -> parse_content false (R f x) = PErr e p ->
-    noown_task x e -> noown_task x e -> match x with TCollect _ _ _ _ => True | _ => False end.
-  Proof. intros O _ N _. destruct x; try exact I; exact (N O). Qed.
-
   Theorem lockstep_err ps o : forall f st pos e p,
     R f (TCollect ps o st pos) = PErr e p -> own e ->
     T f (TCollect ps o st pos) = PErr e p.
